@@ -68,28 +68,6 @@ def _tree_strategy(thorough, assoc, elif_ok):
     return _TREES[key]
 
 
-def _fill_empty_branches(tree):
-    """
-    exclusion by construction of the known finding 'emptied-branch-body-is-stripped': a SELECT CASE
-    with an empty case body is mangled by *every* Transformer pass; give such bodies a comment.
-    Returns the number of bodies filled.
-    """
-    cnt = [0]
-    top = [gen.max_marker(tree)]
-
-    def rec(d):
-        if d['k'] == 'MultiConditional':
-            for bb in d.get('bodies') or []:
-                if not bb:
-                    top[0] += 1
-                    bb.append({'k': 'Comment', 'm': top[0]})
-                    cnt[0] += 1
-        for c in gen.desc_children(d):
-            rec(c)
-    rec(tree)
-    return cnt[0]
-
-
 @st.composite
 def case_strategy(draw, thorough=False):
     mode = draw(st.sampled_from(['T', 'T', 'T', 'T', 'N', 'N', 'M', 'M', 'NM', 'NM']))
@@ -99,16 +77,11 @@ def case_strategy(draw, thorough=False):
     if mode == 'NM' and draw(st.integers(0, 9)) < 7:
         assoc = False
     tree = draw(_tree_strategy(thorough, assoc, elif_ok))
-    filled = 0
-    if draw(st.integers(0, 99)) >= 3:
-        filled = _fill_empty_branches(tree)
     idx = index_desc(tree)
     n = len(idx)
     counter = [0]
     elif_descs = {_dj(e['d']) for e in idx if e['elif_child']}
     case = {'tree': tree, 'mode': mode, 'root': draw(st.sampled_from(['node', 'node', 'tuple'])), 'map': [], 'opts': {}}
-    if filled:
-        case['excluded_empty_branches'] = filled
     b = st.booleans()
     pct = lambda p: draw(st.integers(0, 99)) < p   # noqa
 
@@ -458,8 +431,8 @@ def check_case(case, ctx):
     exp_list = [e for e in exp_list]
     flags = _scan_expected(exp_list)
     oflags = _scan_expected([orig_m])
-    if oflags['select']:
-        flags['select'] += oflags['select']      # a SELECT CASE with an initially empty branch body
+    if oflags['select'] or oflags['where']:
+        classes.append('tree:empty-branch-body')     # (regression shape of fix b3b79f9)
     if mode in ('T', 'N'):
         nontrivial = (len(key_idx) >= 2 and deep) or dupkey or selfdup or scoped
     else:
@@ -476,18 +449,13 @@ def check_case(case, ctx):
             return False
         sibs = [x for x in idx if x['parent'] == w0['parent'] and x['slot'] == w0['slot'] and x['sub'] == w0['sub']]
         return len(sibs) == len(ent['win'])
-    win_whole_branch = any(_whole_branch(ent) and isinstance(ent['h'], dict) and 't' in ent['h']
-                           for ent in case['map'] if 'win' in ent)
-    if win_whole_branch:
-        classes.append('window=whole-branch-body')
+    if any(_whole_branch(ent) for ent in case['map'] if 'win' in ent):
+        classes.append('window=whole-branch-body')     # (regression shape of fix 78cd4a1)
 
     ctx.case(case, nontrivial, classes)
     if case.get('excluded_elif_keys'):
         ctx.exclude('ELSE IF conditional of a has_elseif chain drawn as mapping key (known: C14:else-if-branch-removed-from-has_elseif-conditional)',
                     case['excluded_elif_keys'])
-    if case.get('excluded_empty_branches'):
-        ctx.exclude('SELECT CASE branch generated with an empty body (known: C14:emptied-branch-body-is-stripped:MultiConditional)',
-                    case['excluded_empty_branches'])
 
     # ---- loki ---------------------------------------------------------------
     before = None
@@ -516,8 +484,6 @@ def check_case(case, ctx):
             return 'C14:else-if-branch-removed-from-has_elseif-conditional'
         if refobj is not None and mode == 'NM' and refobj.scoped_seen:
             return 'C14:NM:scoped-node-not-handled-as-internal-node'
-        if win_whole_branch:
-            return 'C14:sibling-window-equal-to-whole-branch-body-replaces-the-body-tuple'
         if mode == 'N' and win_internal and opts.get('sources') and opts.get('invalidate_source'):
             return 'C14:N:sibling-window-with-internal-node-not-matched-after-source-invalidation'
         return None
@@ -527,8 +493,6 @@ def check_case(case, ctx):
         result = t.visit(target)
     except Exception as e:  # noqa  (the statement implies totality on its domain; includes RecursionError)
         sig = special_sig()
-        if sig is None and flags['where']:
-            sig = 'C14:emptied-branch-body-is-stripped:MaskedStatement'
         if sig is None:
             sig = f'C14:{mode}:raises:{exc_bucket(e)}'
         ctx.fail(sig, case, f'{type(e).__name__}: {str(e)[:300]}')
@@ -540,10 +504,6 @@ def check_case(case, ctx):
     if se != sa:
         where, nature, detail = rx.first_difference(se, sa) or ('root', 'different', '')
         sig = special_sig()
-        if sig is None and where.endswith('.bodies') and (flags['where'] or flags['select']):
-            sig = 'C14:emptied-branch-body-is-stripped:' + where.split('.')[0]
-        if sig is None and oflags['select'] and mode == 'N' and any('win' in ent for ent in case['map']):
-            sig = 'C14:emptied-branch-body-is-stripped:MultiConditional'   # mangled select no longer equals the window key
         if sig is None:
             sig = f'C14:{mode}:mismatch:{where}:{nature}'
         ctx.fail(sig, case, f'first difference at {where} ({nature}): {detail}')
